@@ -42,6 +42,10 @@ func (p *PtrCodec) UnmarshalJSON(b []byte) error {
 	return nil
 }
 
+// StateTypeName makes Entity a state.TypeNamer: without WithEntityType its
+// messages carry this name, with the option the explicit name wins.
+func (Entity) StateTypeName() string { return "c19.entity" }
+
 type Entity struct {
 	ID    string         `json:"id"`
 	PC    PtrCodec       `json:"pc"`  // by value, codec on the pointer receiver
